@@ -45,5 +45,16 @@ CHECKS += [
          text="For every data set x offset x centroid set the reported squared distances, predicted labels (ties excluded exactly), per-cluster weights and biased variances are compared with exact rational values, for the batch, every single sample and every row composition of a Dask array; a GMM initialised from the k-means result must start from exactly these centroids / variances (floored) / weights and its first EM step must match the definition.",
          note=TRUST),
 ]
+CHECKS += [
+    dict(id="C07", technique="bounded exhaustive enumeration (UBMs x subspaces x statistics lists x iteration counts, plus setter histories) on the real code vs block-coordinate ascent derived from the joint posterior's quadratic form",
+         text="For every ISV/JFA model and enrolment list the joint log-posterior of (y, x_h, z) is assembled as one quadratic form from the model definition; the factors returned after k = 1..6, 50, 200 enrolment iterations must equal k exact coordinate-ascent sweeps of that form (which are monotone by construction, checked) and, for large k, the unique mode solve(P, b); the same is re-checked after U/V are replaced on the same machine object. D of order 1 makes the z coupling visible (the suite's D ~ 1e-10 hides it).",
+         note=TRUST),
+    dict(id="C08", technique="bounded exhaustive enumeration (UBMs x statistics sets x model sets x all presentations/offset kinds/normalisation/UBM-as, plus UBM update histories) on the real code vs the explicit-loop formula and the derivative identity",
+         text="Every presentation of every (UBM, statistics, models) triple is scored and compared with the formula evaluated by explicit loops; zero for the UBM, linearity, additivity, zero-frame statistics, machine == array, MAP machine == its prior (with different own means and variances), UBMs whose variances/floors are changed between calls, integer-typed UBM means, and the central-difference derivative of the real log-likelihood are asserted.",
+         note=TRUST),
+    dict(id="C11", technique="bounded exhaustive enumeration (UBMs x subspaces x client factors x probe sets x {ISV,JFA}) on the real code vs reference posterior / linear score and pairwise entry-point equivalence",
+         text="score() is compared with the frame-normalised linear score of the client mean with the UBM shifted by U x (x = posterior mean from the pooled probe, computed independently); list == pooled probe, re-scoring the same objects, score_using_array / enroll_using_array / fit_using_array (numpy and dask) against the statistics-level calls, estimate_ux == U estimate_x and ISVMachine.transform are asserted for every case.",
+         note=TRUST),
+]
 _PENDING = "check not built yet in this round (planned, see DESIGN.md section 10); not claimed until it runs clean"
 NOT_APPLICABLE = [dict(property_id="C%02d" % i, reason=_PENDING) for i in range(1, 21) if "C%02d" % i not in {c["id"] for c in CHECKS}]
